@@ -213,6 +213,9 @@ func abstractOf(b []byte) (res absPkt) {
 
 // ---------------------------------------------------------------- Gallina printers
 
+// gPair prints a pair as an application: nested "(a, b)" notations are very slow to parse.
+func gPair(a, b string) string { return "(pair " + a + " " + b + ")" }
+
 func gIP(a netip.Addr) string {
 	if a.Is4() {
 		b := a.As4()
@@ -223,7 +226,7 @@ func gIP(a netip.Addr) string {
 }
 func gOptIP(a netip.Addr) string { return vgen.Opt(gIP(a), a.IsValid()) }
 func gAP(a netip.AddrPort) string {
-	return vgen.Pair(gIP(a.Addr()), vgen.N(uint64(a.Port())))
+	return gPair(gIP(a.Addr()), vgen.N(uint64(a.Port())))
 }
 func gInfo(i absInfo) string {
 	return vgen.App("Dispatcher.MkInfo", vgen.B(i.Peer), vgen.B(i.Cons), vgen.N(uint64(i.SegID)),
@@ -321,7 +324,7 @@ func observe(out []byte, ap netip.AddrPort, in, orig []byte, req absPkt) obsT {
 		ext = cp(scn.Payload[:off])
 	}
 	hostT := func(t slayers.AddrType, raw []byte) string {
-		return vgen.Pair(vgen.N(uint64(t)), vgen.Bytes(raw))
+		return gPair(vgen.N(uint64(t)), vgen.Bytes(raw))
 	}
 	return obsT{"reply", vgen.App("Dispatcher.OReply", vgen.App("Dispatcher.MkReply",
 		gAP(ap), vgen.N(uint64(scn.DstIA)), vgen.N(uint64(scn.SrcIA)),
@@ -492,6 +495,7 @@ func genOpts(r *vgen.Rand) (types []uint8, data [][]byte) {
 type genOut struct {
 	Bytes []byte
 	Kind  string
+	Coarse, PathK string // tally keys
 	L4    int // expected abstract L4 kind (0 none, 1 udp, 2 scmp); -1 = no expectation
 	DstIA uint64
 	Dst   hostG
@@ -516,6 +520,7 @@ func genPacket(r *vgen.Rand, depth int, big bool) genOut {
 	var l4 []gopacket.SerializableLayer
 	var proto slayers.L4ProtocolType
 	kind, expect := "", -1
+	coarse := ""
 	scmp := func(ty slayers.SCMPType, code uint8) *slayers.SCMP {
 		s := &slayers.SCMP{TypeCode: slayers.CreateSCMPTypeCode(ty, slayers.SCMPCode(code))}
 		s.SetNetworkLayerForChecksum(scn)
@@ -612,6 +617,14 @@ func genPacket(r *vgen.Rand, depth int, big bool) genOut {
 		if len(quote) > 0 {
 			l4 = append(l4, gopacket.Payload(quote))
 		}
+		qc := qk
+		for _, pre := range []string{"q:cut:", "q:junk", "q:udp", "q:scmp-128", "q:scmp-130", "q:scmp-", "q:"} {
+			if strings.HasPrefix(qk, pre) {
+				qc = pre
+				break
+			}
+		}
+		coarse = fmt.Sprintf("scmp-%d/%s", ty, qc)
 		kind += "/" + qk
 	case sel < 95: // other protocol
 		proto = vgen.Pick(r, slayers.L4ProtocolType(6), slayers.L4BFD, 0, 255, 17+1)
@@ -649,6 +662,9 @@ func genPacket(r *vgen.Rand, depth int, big bool) genOut {
 		}
 		first = slayers.HopByHopClass
 	}
+	if coarse == "" {
+		coarse = kind
+	}
 	scn.NextHdr = first
 	layers = append(layers, scn)
 	if hbh != nil {
@@ -665,7 +681,10 @@ func genPacket(r *vgen.Rand, depth int, big bool) genOut {
 		fmt.Fprintln(os.Stderr, "generator: serialize:", err, kind, pk)
 		os.Exit(3)
 	}
-	return genOut{Bytes: cp(buf.Bytes()), Kind: kind + "|" + pk, L4: expect,
+	if hbh != nil || e2e != nil {
+		coarse += "+ext"
+	}
+	return genOut{Bytes: cp(buf.Bytes()), Kind: kind + "|" + pk, Coarse: coarse, PathK: pk, L4: expect,
 		DstIA: uint64(scn.DstIA), Dst: dst}
 }
 
@@ -741,7 +760,7 @@ func main() {
 			}
 			ap := netip.AddrPortFrom(poolAddr(mr), uint16(mr.Range(1, 65535)))
 			svc[addr.Addr{IA: addr.IA(ia), Host: addr.HostSVC(addr.SVC(s))}] = ap
-			svcTerms = append(svcTerms, vgen.Pair(vgen.Pair(vgen.N(ia), vgen.N(uint64(s))), gAP(ap)))
+			svcTerms = append(svcTerms, gPair(gPair(vgen.N(ia), vgen.N(uint64(s))), gAP(ap)))
 		}
 	}
 	run.Prelude = "Definition svc0 : list ((N * N) * (Dispatcher.ip * N)) := " + vgen.List(svcTerms) + "."
@@ -752,7 +771,8 @@ func main() {
 	}
 
 	selfMismatch := 0
-	n := run.Count(2400, 120000)
+	run.ShardSize = 300
+	n := run.Count(1800, 60000)
 	big := run.Tier == "thorough"
 	for i := 0; i < n; i++ {
 		r := rng.Fork(uint64(i))
@@ -854,8 +874,8 @@ func main() {
 			run.Tally("fresh<>long-lived")
 		}
 		if stream == "valid" {
-			run.Tally("gen:" + strings.SplitN(g.Kind, "|", 2)[0])
-			run.Tally("path:" + strings.SplitN(g.Kind, "|", 2)[1] + "/" + obs[0].Kind)
+			run.Tally("gen:" + g.Coarse)
+			run.Tally("path:" + g.PathK + "/" + obs[0].Kind)
 		}
 		nontrivial := abs.OK && (abs.HBH || abs.E2E != nil || abs.L4.Kind != 0)
 		term := vgen.App("Dispatcher.MkCase", cfgTerm(on), gDgram(abs), gOptIP(ul), gAP(prev),
